@@ -21,6 +21,7 @@ pub struct InProc {
     pub peer: Arc<ExecutionContext>,
     pub faults: Vec<Fault>,
     pub log: Mutex<Vec<Value>>,
+    pub want_payload: bool,
 }
 
 #[async_trait::async_trait]
@@ -47,7 +48,11 @@ impl FragmentTransport for InProc {
         }
         let (r, _) = execute_fragment(&self.peer, &req2).await?;
         let mut bytes = encode_ipc(&r.schema, &r.batches)?;
-        self.log.lock().unwrap().push(json!({"table": req.table, "shard": req.shard_index, "len": bytes.len(), "rows": r.row_count}));
+        let mut entry = json!({"table": req.table, "shard": req.shard_index, "len": bytes.len(), "rows": r.row_count});
+        if self.want_payload {
+            entry["payload_hex"] = json!(bytes.iter().map(|b| format!("{b:02x}")).collect::<String>());
+        }
+        self.log.lock().unwrap().push(entry);
         if let Some(f) = fault {
             match f.kind.as_str() {
                 "truncate" => bytes.truncate(f.offset.min(bytes.len())),
@@ -57,6 +62,7 @@ impl FragmentTransport for InProc {
                     }
                 }
                 "empty_ok" => bytes.clear(),
+                "rows_plus_one" => return Ok((bytes, r.row_count + 1, 0.0)),
                 _ => {}
             }
         }
@@ -95,7 +101,7 @@ pub async fn do_dist(db: &Db, req: &Value) -> Value {
             offset: f["offset"].as_u64().unwrap_or(0) as usize,
         })
         .collect();
-    let t = InProc { peer, faults, log: Mutex::new(vec![]) };
+    let t = InProc { peer, faults, log: Mutex::new(vec![]), want_payload: req["want_payload"].as_bool().unwrap_or(false) };
     if req["gather_plan"].as_bool().unwrap_or(false) {
         return match query_engine::distributed::gather::plan_gather(&db.ctx, sql) {
             Ok(p) => json!({"ok": true, "gather": format!("{p:?}")}),
